@@ -370,10 +370,17 @@ def make_class(rnd, i):
     return cls, names, ndef, kind
 
 
-def ctor_case(ctx, rnd, i):
+def ctor_case(ctx, rnd, i, made=None):
     from func_adl.ast.syntatic_sugar import resolve_syntatic_sugar
 
-    cls, names, ndef, kind = make_class(rnd, i)
+    if made is None:
+        made = make_class(rnd, i)
+        if rnd.random() < 0.4:
+            # history: the SAME record class is constructed again, in another query with another split of its arguments (what one
+            # call gave by keyword the next leaves to its default)
+            ctx.count("ctor-same-class-constructed-again")
+            ctor_case(ctx, rnd, i, made)
+    cls, names, ndef, kind = made
     rel = getattr(cls, "_verif_relative", None)
     if rel is not None:
         # history: the other class of the family goes through the lowering first (half of the time: the derived one first)
@@ -514,6 +521,19 @@ def k3(ds): return ds.Select(lambda e: NT(c=e.met, b=e.y, a=e.x)).Select(lambda 
 def k4(ds): return ds.Select(lambda e: [DC(j.pt, b=j.eta) for j in e.jets if j.pt > 3]).Select(lambda rs: rs.Select(lambda r: r.b))
 def k5(ds): return ds.Select(lambda e: DC(e.x, e.y, e.met, e.x))
 def k6(ds): return ds.Select(lambda e: NT(e.x, e.y, zz=e.met))
+# the record classes reached another way than by their bare name: through a captured instance that holds them (a namespace object,
+# an instance of a class with the record class as class attribute), through an enclosing class, through the module
+import types as _types
+import sys as _sys
+NSP = _types.SimpleNamespace(DC=DC, NT=NT)
+class Holder:
+    DC = DC
+    NT = NT
+HOLD = Holder()
+def k7(ds): return ds.Select(lambda e: NSP.DC(e.x, c=e.y).c + NSP.NT(e.x, e.y).b)
+def k8(ds): return ds.Select(lambda e: Holder.DC(b=e.y, a=e.x)['a'] + HOLD.NT(e.x, b=e.y).c)
+def p7(): return lambda e: NSP.DC(e.x, c=e.y).c + NSP.NT(e.x, e.y).b
+def p8(): return lambda e: Holder.DC(b=e.y, a=e.x).a + HOLD.NT(e.x, b=e.y).c
 def p0(): return lambda e: DC(e.x, c=e.y).c
 def p1(): return lambda e: DC(b=e.y, a=e.x).a
 def p2(): return lambda e: NT(e.x, e.y).b
@@ -528,7 +548,7 @@ def ctor_through_operators(ctx, rnd):
 
     m = modgen.load(CTOR_FILE, "c06k")
     data = dataset(rnd, 3, 3)
-    for i in range(5):
+    for i in (0, 1, 2, 3, 4, 7, 8):
         ctx.case(f"ctor-operator:k{i}", True)
         pyf = getattr(m, f"p{i}")()
         try:
